@@ -1,6 +1,7 @@
 //! Generic check runner: seeded search over cases, parallel workers, minimisation, replay files,
 //! known findings, evidence.
 
+use crate::outln;
 use std::collections::{BTreeMap, BTreeSet};
 use std::path::{Path, PathBuf};
 use std::sync::atomic::{AtomicU64, AtomicUsize, Ordering};
@@ -137,7 +138,7 @@ pub fn load_known_findings() -> KnownFindings {
     let p = verif_root().join("known_findings.json");
     match std::fs::read(&p) {
         Ok(b) => serde_json::from_slice(&b).unwrap_or_else(|e| {
-            println!("HARNESS-ERROR: cannot parse {}: {e}", p.display());
+            outln!("HARNESS-ERROR: cannot parse {}: {e}", p.display());
             std::process::exit(2);
         }),
         Err(_) => KnownFindings::default(),
@@ -324,7 +325,7 @@ pub fn run_check<P: Property>(p: &P, opts: &RunOpts) -> i32 {
     let id = p.id();
     let root = verif_root();
     let total_runs = opts.runs_override.unwrap_or_else(|| p.runs(opts.tier));
-    println!(
+    outln!(
         "check {id} tier={} VERIF_SEED={} runs={} workers={}",
         opts.tier.name(),
         opts.seed,
@@ -341,7 +342,7 @@ pub fn run_check<P: Property>(p: &P, opts: &RunOpts) -> i32 {
         let path = root.join(&f.canonical_replay);
         match replay_file(p, &path, &allowed) {
             Err(e) => {
-                println!("HARNESS-ERROR: known finding {}: {e}", f.id);
+                outln!("HARNESS-ERROR: known finding {}: {e}", f.id);
                 return 2;
             }
             Ok((rf, e)) => {
@@ -351,11 +352,11 @@ pub fn run_check<P: Property>(p: &P, opts: &RunOpts) -> i32 {
                 };
                 if still {
                     let line = format!("KNOWN-FINDING: property={id} {} [{}]", f.what_fails, f.id);
-                    println!("{line}");
+                    outln!("{line}");
                     known_lines.push(line);
                     known_ids_active.insert(f.id.clone());
                 } else {
-                    println!(
+                    outln!(
                         "note: known finding {} no longer reproduces on this tree (nothing is suppressed for it)",
                         f.id
                     );
@@ -371,7 +372,7 @@ pub fn run_check<P: Property>(p: &P, opts: &RunOpts) -> i32 {
         let a = p.evaluate(&case);
         let b = p.evaluate(&case);
         if a.log != b.log || a.violation != b.violation {
-            println!("HARNESS-ERROR: run {i} is not deterministic (two evaluations of the same case differ)");
+            outln!("HARNESS-ERROR: run {i} is not deterministic (two evaluations of the same case differ)");
             return 2;
         }
     }
@@ -444,11 +445,11 @@ pub fn run_check<P: Property>(p: &P, opts: &RunOpts) -> i32 {
         }
     });
     if let Some(h) = harness_errors.lock().unwrap().first() {
-        println!("HARNESS-ERROR: {h}");
+        outln!("HARNESS-ERROR: {h}");
         return 2;
     }
     if capped.load(Ordering::SeqCst) != 0 {
-        println!("HARNESS-ERROR: wall-clock cap of {wall_cap_s}s hit before the run count was reached");
+        outln!("HARNESS-ERROR: wall-clock cap of {wall_cap_s}s hit before the run count was reached");
         return 2;
     }
 
@@ -461,7 +462,7 @@ pub fn run_check<P: Property>(p: &P, opts: &RunOpts) -> i32 {
     // 3. Violations: minimise, write the replay file, confirm in a fresh process.
     if let Some((idx, (case, v))) = found.iter().next() {
         violation_count = found.len();
-        println!(
+        outln!(
             "violation at run {idx} (run seed {}): class={} detail={}",
             rng::mix(opts.seed, *idx),
             v.class,
@@ -470,7 +471,7 @@ pub fn run_check<P: Property>(p: &P, opts: &RunOpts) -> i32 {
         let (min_case, evals) = minimise(p, case, &v.class, 3000, &allowed);
         let min_eval = judge(p, &min_case, &allowed);
         let min_v = min_eval.violation.clone().unwrap_or_else(|| v.clone());
-        println!("minimised with {evals} evaluations: {}", min_v.detail);
+        outln!("minimised with {evals} evaluations: {}", min_v.detail);
         let rf = ReplayFile {
             property: id.to_string(),
             verif_seed: opts.seed,
@@ -484,18 +485,18 @@ pub fn run_check<P: Property>(p: &P, opts: &RunOpts) -> i32 {
         let path = write_replay(&root.join("replays"), &name, &rf);
         match replay_in_fresh_process(&path) {
             Ok(Some(c)) if c == min_v.class => {
-                println!("VIOLATION property={id} replay={}", path.display());
+                outln!("VIOLATION property={id} replay={}", path.display());
                 exit = 1;
             }
             Ok(other) => {
-                println!(
+                outln!(
                     "HARNESS-ERROR: replay in a fresh process gave {:?}, expected class {}",
                     other, min_v.class
                 );
                 return 2;
             }
             Err(e) => {
-                println!("HARNESS-ERROR: {e}");
+                outln!("HARNESS-ERROR: {e}");
                 return 2;
             }
         }
@@ -552,7 +553,7 @@ pub fn run_check<P: Property>(p: &P, opts: &RunOpts) -> i32 {
         )
         .unwrap();
     }
-    println!(
+    outln!(
         "{id}: {} runs, {} non-trivial ({} distinct), {} violations, {:.1}s",
         sh.evaluations,
         sh.nontrivial,
@@ -598,31 +599,31 @@ pub fn replay_main<P: Property>(p: &P, path: &Path) -> i32 {
     let allowed = allowed_ids(&load_known_findings(), p.id());
     match replay_file(p, path, &allowed) {
         Err(e) => {
-            println!("HARNESS-ERROR: {e}");
+            outln!("HARNESS-ERROR: {e}");
             2
         }
         Ok((rf, e)) => {
             let quiet = std::env::var("VERIF_REPLAY_QUIET").is_ok();
             if !quiet {
-                println!("{}", serde_json::to_string_pretty(&e.sample).unwrap());
-                println!("--- event log ---\n{}", e.log);
+                outln!("{}", serde_json::to_string_pretty(&e.sample).unwrap());
+                outln!("--- event log ---\n{}", e.log);
             }
             match e.violation {
                 Some(v) => {
-                    println!("REPLAY-CLASS {}", v.class);
-                    println!("detail: {}", v.detail);
+                    outln!("REPLAY-CLASS {}", v.class);
+                    outln!("detail: {}", v.detail);
                     if v.class == rf.violation.class {
-                        println!("VIOLATION property={} replay={}", rf.property, path.display());
+                        outln!("VIOLATION property={} replay={}", rf.property, path.display());
                         1
                     } else {
-                        println!("note: recorded class was {}", rf.violation.class);
+                        outln!("note: recorded class was {}", rf.violation.class);
                         1
                     }
                 }
                 None => {
-                    println!("REPLAY-CLEAN");
+                    outln!("REPLAY-CLEAN");
                     if !e.known.is_empty() {
-                        println!("known findings matched: {:?}", e.known);
+                        outln!("known findings matched: {:?}", e.known);
                     }
                     0
                 }
@@ -719,9 +720,9 @@ pub fn survey<P: Property>(p: &P, seed: u64, n: u64) {
         }
     });
     let t = tally.into_inner().unwrap();
-    println!("survey {}: {n} runs, {} violation classes", p.id(), t.len());
+    outln!("survey {}: {n} runs, {} violation classes", p.id(), t.len());
     for (c, (k, i, d)) in t {
         let d: String = d.chars().take(300).collect();
-        println!("{k:>7}  {c}\n         first at run {i}: {d}");
+        outln!("{k:>7}  {c}\n         first at run {i}: {d}");
     }
 }
